@@ -12,6 +12,7 @@ program!(c02_xyz_to_lab, "C02", "quick", sv,
 {
     let (x, y, z) = (T::var("x", 0.0, 0.95047), T::var("y", 0.0, 1.0), T::var("z", 0.0, 1.08883));
     let lab: Lab<D65, T> = Lab::from_color_unclamped(Xyz::<D65, T>::new(x, y, z));
+    T::output("l", &lab.l); T::output("a", &lab.a); T::output("b", &lab.b);
     let (l, a, b) = specs::xyz_to_lab::<T>(x, y, z, specs::W_D65);
     let tol = T::tol(1e-9, 1e-3);
     T::ensure("spec.l", abs_le(lab.l, l, tol)); T::ensure("spec.a", abs_le(lab.a, a, tol)); T::ensure("spec.b", abs_le(lab.b, b, tol));
@@ -23,6 +24,7 @@ program!(c02_lab_to_xyz, "C02", "quick", sv,
 {
     let (l, a, b) = (T::var("l", 0.0, 100.0), T::var("a", -128.0, 127.0), T::var("b", -128.0, 127.0));
     let xyz: Xyz<D65, T> = Xyz::from_color_unclamped(Lab::<D65, T>::new(l, a, b));
+    T::output("x", &xyz.x); T::output("y", &xyz.y); T::output("z", &xyz.z);
     let (x, y, z) = specs::lab_to_xyz::<T>(l, a, b, specs::W_D65);
     let tol = T::tol(1e-9, 1e-4);
     T::ensure("spec.x", abs_le(xyz.x, x, tol)); T::ensure("spec.y", abs_le(xyz.y, y, tol)); T::ensure("spec.z", abs_le(xyz.z, z, tol));
@@ -34,6 +36,7 @@ program!(c02_xyz_to_luv, "C02", "quick", s,
 {
     let (x, y, z) = (T::var("x", 0.0, 0.95047), T::var("y", 0.000001, 1.0), T::var("z", 0.0, 1.08883));
     let luv: Luv<D65, T> = Luv::from_color_unclamped(Xyz::<D65, T>::new(x, y, z));
+    T::output("l", &luv.l); T::output("u", &luv.u); T::output("v", &luv.v);
     let (l, u, v) = specs::xyz_to_luv::<T>(x, y, z, specs::W_D65);
     let tol = T::tol(1e-6, 1e-2);
     T::ensure("spec.l", abs_le(luv.l, l, tol)); T::ensure("spec.u", abs_le(luv.u, u, tol)); T::ensure("spec.v", abs_le(luv.v, v, tol));
@@ -72,6 +75,7 @@ program!(c02_rgb_to_hsv, "C02", "quick", s,
 {
     let (r, g, b) = (T::var("r", 0.0, 1.0), T::var("g", 0.0, 1.0), T::var("b", 0.0, 1.0));
     let c: Hsv<Srgb, T> = Hsv::from_color_unclamped(palette::rgb::Rgb::<Srgb, T>::new(r, g, b));
+    T::output("h", &c.hue.into_raw_degrees()); T::output("s", &c.saturation); T::output("v", &c.value);
     let (mx, mn) = (specs::max3(r, g, b), specs::min3(r, g, b));
     let tol = T::tol(1e-9, 1e-4);
     T::ensure("spec.value", abs_le(c.value, mx, tol));
@@ -90,6 +94,7 @@ program!(c02_rgb_to_hsl, "C02", "quick", s,
 {
     let (r, g, b) = (T::var("r", 0.0, 1.0), T::var("g", 0.0, 1.0), T::var("b", 0.0, 1.0));
     let c: Hsl<Srgb, T> = Hsl::from_color_unclamped(palette::rgb::Rgb::<Srgb, T>::new(r, g, b));
+    T::output("h", &c.hue.into_raw_degrees()); T::output("s", &c.saturation); T::output("l", &c.lightness);
     let (mx, mn) = (specs::max3(r, g, b), specs::min3(r, g, b));
     let tol = T::tol(1e-9, 1e-4);
     let l = (mx + mn) / T::k(2.0);
@@ -128,20 +133,21 @@ program!(c02_hsv_to_rgb, "C02", "quick", s,
 {
     let (h, s, v) = (T::var("h", -360.0, 720.0), T::var("s", 0.0, 1.0), T::var("v", 0.0, 1.0));
     let c: palette::rgb::Rgb<Srgb, T> = palette::rgb::Rgb::from_color_unclamped(Hsv::<Srgb, T>::new(h, s, v));
+    T::output("r", &c.red); T::output("g", &c.green); T::output("b", &c.blue);
     let tol = T::tol(1e-9, 1e-5);
     T::ensure("spec.max_is_value", abs_le(specs::max3(c.red, c.green, c.blue), v, tol));
     T::ensure("spec.min_is_v_times_1_minus_s", abs_le(specs::min3(c.red, c.green, c.blue), v * (T::k(1.0) - s), tol));
 });
 
 program!(c02_oklab, "C02", "quick", sv,
-    "FromColorUnclamped<Xyz> for Oklab [oklab.rs] (M1, cube root, M2)",
-    "Ottosson's Oklab: code == published M1 / cbrt / M2 within 1e-6 on the D65 box",
+    "FromColorUnclamped<Rgb> for Oklab -> oklab::linear_srgb_to_oklab [oklab.rs]",
+    "Ottosson's Oklab from linear sRGB (published M1 for sRGB, cube root, M2): code == spec within 1e-9 on [0,1]^3",
 {
-    let (x, y, z) = (T::var("x", 0.0, 0.95047), T::var("y", 0.0, 1.0), T::var("z", 0.0, 1.08883));
-    let c: Oklab<T> = Oklab::from_color_unclamped(Xyz::<D65, T>::new(x, y, z));
-    let (l, a, b) = specs::xyz_to_oklab::<T>(x, y, z);
-    let tol = T::tol(1e-6, 1e-4);
-    T::ensure("spec.l", abs_le(c.l, l, tol)); T::ensure("spec.a", abs_le(c.a, a, tol)); T::ensure("spec.b", abs_le(c.b, b, tol));
+    let (r, g, b) = (T::var("r", 0.0, 1.0), T::var("g", 0.0, 1.0), T::var("b", 0.0, 1.0));
+    let c: Oklab<T> = Oklab::from_color_unclamped(LinSrgb::<T>::new(r, g, b));
+    let (l, a, bb) = specs::linear_srgb_to_oklab::<T>(r, g, b);
+    let tol = T::tol(1e-9, 1e-4);
+    T::ensure("spec.l", abs_le(c.l, l, tol)); T::ensure("spec.a", abs_le(c.a, a, tol)); T::ensure("spec.b", abs_le(c.b, bb, tol));
 });
 
 macro_rules! rgb_matrix {
